@@ -83,11 +83,18 @@ def cat_dtypes(cats):
     return out
 
 
+def _vb(x):
+    """a variadic binding as (broadcastable, shape), whatever record the tree keeps it in"""
+    if isinstance(x, tuple):
+        return x
+    return (getattr(x, "broadcastable"), tuple(getattr(x, "shape")))
+
+
 def show_memo(memo):
     single, variadic, pytree, args = memo
     s = ",".join("%s=%d" % (k, v) for k, v in single.items())
     # same text as the model's show_memo; "P<n>" (number of structure names) is appended by callers that need it
-    v = ",".join("%s=%s%s" % (k, "T" if b else "F", "(" + ",".join(str(int(x)) for x in sh) + ")") for k, (b, sh) in variadic.items())
+    v = ",".join("%s=%s%s" % (k, "T" if b else "F", "(" + ",".join(str(int(x)) for x in sh) + ")") for k, (b, sh) in ((k_, _vb(x_)) for k_, x_ in variadic.items()))
     return "S{%s} V{%s}" % (s, v)
 
 
